@@ -19,12 +19,13 @@ NPROC = int(os.environ.get("VERIF_NPROC", "16"))
 
 PORTFOLIO = [
     # (abstract strings?, options, share of the budget)
-    (True, {"smt.mbqi": False}, 0.15),
+    (True, {"smt.mbqi": False}, 0.3),
+    (True, {"smt.qi.eager_threshold": 100.0}, 0.1),
     (True, {}, 0.1),
-    (True, {"smt.mbqi": False, "smt.qi.eager_threshold": 100.0}, 0.15),
-    (False, {}, 0.3),
-    (False, {"smt.qi.eager_threshold": 100.0}, 0.15),
-    (False, {"smt.mbqi": False}, 0.15),
+    (True, {"smt.mbqi": False, "smt.qi.eager_threshold": 100.0}, 0.1),
+    (False, {}, 0.2),
+    (False, {"smt.qi.eager_threshold": 100.0}, 0.1),
+    (False, {"smt.mbqi": False}, 0.1),
 ]
 
 
